@@ -131,7 +131,11 @@ def pair_cases(run, n=None):
     for _ in range(n):
         d = rng.choice(DIALECTS)
         a, b = rng.choice(by_d[d]), rng.choice(by_d[d])
-        cases.append({"dialect": d, "sql": a.rstrip().rstrip(";") + ";\n" + b, "unescape": rng.random() < 0.75, "trailing": rng.random() < 0.15,
+        # mostly `a; b`; sometimes a joiner that must not make the parser accept the text while dropping its tail
+        # (the statement loop used to stop in front of END and ignore everything after it)
+        r = rng.random()
+        joiner = ";\n" if r < 0.85 else rng.choice([" END ", " END zz9 ", "\nEND;\n", " END -- c\n", "; END ", " end "])
+        cases.append({"dialect": d, "sql": a.rstrip().rstrip(";") + joiner + b, "unescape": rng.random() < 0.75, "trailing": rng.random() < 0.15,
                       "stream": "pairs"})
     return cases
 
